@@ -131,6 +131,11 @@ def runOp (kind : String) (c : Cfg) (toks : List String) (vars : List (Option VS
       let src := mkElems id0 xs
       let (v, w, r) := extend c v (.cloned src) { w with nextId := id0 + src.length }
       some (setV vars j (some v), w, rOk r)
+    | "extend_refs" =>
+      -- `Extend<&'a T>` (`T: Copy`): `extend(iter.cloned())`
+      let src := mkElems id0 xs
+      let (v, w, r) := extend c v (.cloned src) { w with nextId := id0 + src.length }
+      some (setV vars j (some v), w, rOk r)
     | "extend_copy" =>
       let src := mkElems id0 xs
       let (v, w, r) := extendFromSliceCopy c v src { w with nextId := id0 + src.length }
